@@ -47,6 +47,7 @@ pub fn run(prop: &str, leg: &str, ctx: &Ctx, rep: &mut Report) -> bool {
         ("C03", "dump-corpus") => c03::dump_corpus(ctx, rep),
         ("C04", "keys") => c04::keys(ctx, rep),
         ("C05", "roundtrip") => c05::roundtrip(ctx, rep),
+        ("C05", "boundary-keys") => c05::boundary_keys(ctx, rep),
         ("C06", "canonical") => c06::canonical(ctx, rep),
         ("C07", "small-exhaustive") => c07::small_exhaustive(ctx, rep),
         ("C07", "compress-sweep") => c07::compress_sweep(ctx, rep),
